@@ -221,6 +221,37 @@ theorem complete_calls_gen {s : Simp} (hs : SimpSound s) {o : Oracle} (ho : Orac
     ⟨initC env codes this, List.mem_singleton.2 rfl, Sat.nil I, w, f0, [], relC_init hR0 hthis hd0 hcb hS0 hz, ⟨n, hex⟩,
       fun hC => ⟨hbound hC, fun kc hm => absurd hm List.not_mem_nil⟩⟩
 
+/-- **C02.complete_calls_from.** `complete_calls_gen` from ANY first state `cs0` (`runCFrom`) related to a concrete
+    configuration (`f0` in `ws`) with respect to the base world `w` (see `C01.sound_calls_from`). -/
+theorem complete_calls_from {s : Simp} (hs : SimpSound s) {o : Oracle} (ho : OracleSound o) (cfg : Cfg)
+    (codes : List (Nat × List Nat)) (fuel : Nat) (p : Evm.Params) (w ws : Evm.World)
+    (SS : Nat → Prop) (cs0 : CState) (hSc : ∀ a prog, codeOf codes a = some prog → SS a)
+    (hmem : cfg.maxMem + 32 ≤ p.memLimit) (hdep : 1024 ≤ p.maxDepth)
+    (hcodes : ∀ a, w.codeOf a = codeOf codes a)
+    (hcb : ∀ a prog, codeOf codes a = some prog → ∀ b ∈ prog, b < 256)
+    (hch : CreateHyp cfg p SS w)
+    (I : Interp) (hI : I.Std) (hbal : cfg.balances = true → BalHyp I cfg w)
+    (hbound : cfg.balances = true → BalBound ws) (hsha : cfg.sha3 = true → ShaInterp I p cfg)
+    (hoh : cfg.hsto = true → cfg.sha3 = true ∧ HEmptyZero I)
+    (hshaok : ∀ cs, VisitedC s o cfg codes cs0 cs → ShaOK I s cfg cs)
+    (hhs : ∀ cs, VisitedC s o cfg codes cs0 cs → Sat I cs.st.path → HstoOK I p s cfg cs)
+    (f0 : Evm.Frame) (hrel0 : RelC I p SS w cs0 ws f0 []) (hsat0 : Sat I cs0.st.path)
+    (n : Nat) (w' : Evm.World) (h : Evm.Halt) (hex : Evm.exec p n ws f0 = some (w', h)) :
+    (∃ ce ∈ (runCFrom s o cfg codes fuel cs0).ends, Sat I ce.e.st.path ∧
+        ((∃ h0, ce.e.out = .halt h0 ∧ haltWith h0 (ce.e.data.map (·.eval I)) = h ∧ ce.e.tag = .normal ∧
+            WRelM I SS (wd w ce.created ce.nonce) w' (stoOf ce.stores) (evalLogs I ce.logs)
+              (balSem I w ce.bal) ∧
+            (∀ b ∈ ce.e.data, b.WF ∧ b.width = 8) ∧ HRel I p SS w' ce.hsto) ∨
+         (∃ r, ce.e.out = .stuck r) ∨ ce.e.tag ≠ .normal)) ∨
+    (runCFrom s o cfg codes fuel cs0).boundedLoops ≠ [] ∨
+    (runCFrom s o cfg codes fuel cs0).depthCut = true ∨
+    (runCFrom s o cfg codes fuel cs0).outOfFuel = true :=
+  exploreC_complete (cfg := cfg) (codes := codes) (S := SS) (r := (w', h)) hs ho hmem hdep hcodes
+    hSc hcb hI hbal hsha hch hoh hshaok hhs fuel 0 [cs0] {}
+    (fun cs hm => by rw [List.mem_singleton.1 hm]; exact .start)
+    ⟨cs0, List.mem_singleton.2 rfl, hsat0, ws, f0, [], hrel0, ⟨n, hex⟩,
+      fun hC => ⟨hbound hC, fun kc hm => absurd hm List.not_mem_nil⟩⟩
+
 /-- **C02.complete_calls** (statement and commentary above; `hnc`: CREATE is not followed — it ends the path stuck, and
     nothing is ever created: `runC_noCr`). -/
 theorem complete_calls {s : Simp} (hs : SimpSound s) {o : Oracle} (ho : OracleSound o) (cfg : Cfg) (env : Env)
